@@ -171,6 +171,11 @@ impl<'a> Run<'a> {
             seen.push(k.clone());
             it.next();
         }
+        if it.take_error().is_some() {
+            // the scan stopped early and says so through its status channel
+            self.info.errors_returned += 1;
+            return Ok(());
+        }
         let seen: BTreeSet<Vec<u8>> = seen.into_iter().collect();
         for k in self.case.universe.iter() {
             let allowed = self.allowed(k);
@@ -390,6 +395,9 @@ fn run_point_inner(p: &FaultPoint) -> Result<FaultInfo, String> {
             let (k, v) = it.current().unwrap();
             got.insert(k.clone(), v.clone());
             it.next();
+        }
+        if let Some(e) = it.take_error() {
+            return Err(format!("scan after the fault-free reopen stopped with an error: {e:?}"));
         }
     }
     for k in case.universe.iter() {
